@@ -243,10 +243,14 @@ class Build:
         operand = None
         if k in BINARY:
             spec = op[1]
-            if spec == 'self':
-                operand = u
-            elif spec == 'selfmap':
-                operand = r_map(u, fns.fn('z', stage + 'z'))
+            if spec in ('self', 'selfmap'):
+                operand = u if spec == 'self' else r_map(u, fns.fn('z', stage + 'z'))
+                if self.lookahead and k != 'concat':
+                    # two iterators over the same buffering pipeline are in
+                    # flight at once: each has its own read-ahead, and their
+                    # background threads log in no fixed order
+                    self.lookahead *= 2
+                    self.pool_stage = True
             else:
                 operand = self.run(spec, stage_prefix=stage + 'o')
         if k in ('map', 'apply_eager'):
